@@ -731,7 +731,10 @@ func c05Limits(c *Ctx, r *Rng) {
 			binary.LittleEndian.PutUint32(hdr[17:], l.raw)
 			binary.LittleEndian.PutUint32(hdr[21:], l.data)
 			stream = append(stream, hdr...)
-			stream = append(stream, r.Bytes(64)...)
+			// what follows is read as further headers: all-ones size fields are beyond every limit, so none of them may
+			// allocate either (random bytes could form a header within the caps, which is allowed to allocate up to them)
+			_ = r.Bytes(64)
+			stream = append(stream, bytes.Repeat([]byte{0xff}, 64)...)
 			sizes := []int{len(prevPayload) + 8, 16, 16, 16}
 			if prev {
 				sizes = append([]int{len(prevPayload)}, sizes...)
